@@ -100,6 +100,9 @@ class BaseTorchFlow(Flow):
                 strict=False,
             )
             config["data_transform"] = data_transform
+        # Extra flow options are recorded under the constructor's **kwargs
+        kwargs = config.pop("kwargs", {})
+        config.update(kwargs)
         obj = self(**config)
         # Load weights
         weights = {
@@ -135,7 +138,9 @@ class ZukoFlow(BaseTorchFlow):
             FlowClass = flow_class
 
         # Ints are some times passed as strings, so we convert them
-        if hidden_features := kwargs.pop("hidden_features", None):
+        hidden_features = kwargs.pop("hidden_features", None)
+        # May be a list, or an array when reloaded from file
+        if hidden_features is not None and len(hidden_features):
             kwargs["hidden_features"] = list(map(int, hidden_features))
 
         self.flow = FlowClass(self.dims, 0, **kwargs)
